@@ -104,13 +104,15 @@ def mutate(draw: t.Any, v: t.Any, names: t.Sequence[str], depth: int = 0) -> t.A
     if mp:
         ops += ['dropkey', 'addkey', 'addkey', 'renamekey', 'to_items', 'reshape', 'badkey', 'inserting-drop', 'respell-key']
     if isinstance(v, str):
-        ops += ['to_chars', 'to_bytes']
+        ops += ['to_chars', 'to_bytes', 'to_sub']
     if isinstance(v, bool):
         ops += ['to_int']
     elif isinstance(v, int):
-        ops += ['to_float', 'to_str_num', 'to_bool']
+        ops += ['to_float', 'to_str_num', 'to_bool', 'to_sub']
     elif isinstance(v, float):
-        ops += ['to_str_num']
+        ops += ['to_str_num', 'to_sub']
+    elif type(v) is bytes:
+        ops += ['to_sub']
     op = draw(st.sampled_from(ops))
     if op == 'replace':
         return draw(WRONG_KIND)
@@ -196,6 +198,14 @@ def mutate(draw: t.Any, v: t.Any, names: t.Sequence[str], depth: int = 0) -> t.A
         return _rebuild_map(v, pairs)
     if op == 'to_items':
         return [[k, x] for (k, x) in v.items()] if draw(st.booleans()) else list(v.values())
+    if op == 'to_sub':
+        # an instance of a *subclass* of the interchange type (user subclass, mixin enum member): whether it is accepted is not
+        # documented, but whatever comes back must be exactly typed (int, not MyInt or an IntEnum member)
+        from . import usertypes as U
+        if type(v) in (int, float, str, bytes) and draw(st.booleans()):
+            return {int: U.MyInt, float: U.MyFloat, str: U.MyStr, bytes: U.MyBytes}[type(v)](v)
+        pool = {int: [U.IE.P, U.IE0.ZERO, U.IE0.ONE], float: [U.FE0.NIL, U.FE0.HALF], str: [U.SE.RED, U.SE0.EMPTY, U.SE0.A]}.get(type(v))
+        return draw(st.sampled_from(pool)) if pool else v
     if op == 'to_chars':
         return list(v)
     if op == 'to_bytes':
